@@ -980,6 +980,21 @@ func drawAdj(t *rapid.T, maxN int) [][]int {
 			adj[u] = []int{}
 		}
 	}
+	// hubs: a few nodes with very many out-edges, hence many distinct successors (past the
+	// sizes 8, 16, 32, 64 at which a container might change representation) and many parallel
+	// edges among them, in no particular order
+	if n >= 6 && rapid.IntRange(0, 3).Draw(t, "hubs") == 0 {
+		for h := rapid.IntRange(1, 3).Draw(t, "nhubs"); h > 0; h-- {
+			u := rapid.IntRange(0, n-1).Draw(t, "hub")
+			k := rapid.IntRange(n/2, 3*n).Draw(t, "hubdeg")
+			if k > 400 {
+				k = 400
+			}
+			for i := 0; i < k; i++ {
+				adj[u] = append(adj[u], rapid.IntRange(0, n-1).Draw(t, "hubto"))
+			}
+		}
+	}
 	return adj
 }
 
